@@ -413,6 +413,7 @@ pub fn run_plumbing(sim: &Sim, _idx: u64) {
         req_src_pending: sim.pick(&[0u64, 0, 40]),
         extra_polls: 0,
         early_trailers_after: None,
+        ping_pong: false,
     };
     sim.nontrivial();
     sim.sample(|| format!("plumbing: {} server dec/enc {server_dec:?}/{server_enc:?} client dec/enc {client_dec:?}/{client_enc:?} req {:?} resp {:?}", SHAPES[shape], req_msgs.iter().map(|m| m.len()).collect::<Vec<_>>(), resp_msgs.iter().map(|m| m.len()).collect::<Vec<_>>()));
